@@ -2,6 +2,7 @@
 C06 — standard-library name lookup follows the documented resolution rules.
 Helper lemmas: Selene/Std/TrieLemmas.lean, Selene/Std/FindSpec.lean.
 -/
+import Selene.Std.ProgCall
 import Selene.Std.FindSpec
 import Selene.Std.Access
 namespace Selene.Props.C06
@@ -230,5 +231,51 @@ example : findGlobal demoLib ["m"] = .found readOnlyField := by decide
 example : findGlobal demoLib ["m", "tau"] = .absent := by decide
 example : invalidFieldAccess demoLib ["m", "tau"] = [.noField] := by decide
 example : assignmentProblems demoLib [.name "L" true, .path ["m", "pi"] false] = [(1, .notWritable)] := by decide
+
+/-! ## The same, at every read and assignment target of every program (`Std/Prog.lean`) -/
+
+open Selene.Std.Prog Selene.Lua in
+/-- **C06 (reads) in a program.** In any program, an expression `root.a.b…` whose root identifier is not bound by
+the script is reported "does not contain the field" iff the path is absent from the library, the root is a known
+global and no ancestor on the way accepts new fields — and nothing else is ever reported for it. -/
+theorem C06_prog_read (l : SegLib) (R : Nat → Bool) (e : Lua.Expr) (root : String) (rest : Path)
+    (hu : R (exprStart e) = false) (hp : namePathE e = some (root :: rest)) :
+    ((stdExpr l R e).map (·.kind) = [.access .noField] ↔
+      ((findGlobal l (root :: rest)).isFound = false ∧ globalHasFields l root = true ∧
+       writableAncestor l (root :: rest).dropLast (root :: rest).dropLast.length 1 = false)) ∧
+    ((stdExpr l R e).map (·.kind) = [.access .noField] ∨ stdExpr l R e = []) := by
+  have hk := stdExpr_kinds l R e (root :: rest) hu hp
+  constructor
+  · rw [← C06_read, hk]
+    constructor
+    · intro h
+      cases hi : invalidFieldAccess l (root :: rest) with
+      | nil => simp [hi] at h
+      | cons a as =>
+        rw [hi] at h
+        simp only [List.map_cons, List.cons.injEq, Kind.access.injEq, List.map_eq_nil_iff] at h
+        rw [h.1, h.2]
+    · intro h; rw [h]; rfl
+  · have hcases : invalidFieldAccess l (root :: rest) = [] ∨ invalidFieldAccess l (root :: rest) = [.noField] := by
+      unfold invalidFieldAccess
+      simp only
+      split
+      · split
+        · left; rfl
+        · right; rfl
+      · left; rfl
+    rcases hcases with h | h
+    · right
+      have : (stdExpr l R e).map (·.kind) = [] := by rw [hk, h]; rfl
+      simpa using this
+    · left; rw [hk, h]; rfl
+
+open Selene.Std.Prog Selene.Lua in
+/-- **C06 (writes) in a program.** Every target of every assignment is judged on its own, by the table of
+`C06_write_existing` / `C06_read`: what is reported for an assignment is the concatenation of what its targets
+draw, and a target whose root the script binds draws nothing. -/
+theorem C06_prog_write (l : SegLib) (R : Nat → Bool) (vs : VarList) :
+    (stdTargets l R vs).map (·.kind) = vs.toList.flatMap fun v => (targetProblems l (targetOf R v)).map Kind.access :=
+  stdTargets_kinds l R vs
 
 end Selene.Props.C06
